@@ -6,7 +6,7 @@
     ilp: optimal relative to the solver hypothesis (Properties/C17); judged per input against the verified oracle here.
     opt_value (the oracle used to judge prtpy's outputs) is proved to be the optimum.
     Statements only; proofs in Proofs/{DPProofs,CKKOptimal,CGOptimal,SNPProofs,Glue,KKProofs,OracleSpec,Findings}.v. *)
-From Prtpy Require Import Base.Prelude Model.Binner Model.Objectives Model.KK Model.CG Model.DP Model.SNP Spec.Partition Oracle.Reach Proofs.DPProofs Proofs.KKProofs Proofs.CKKOptimal Proofs.CGOptimal Proofs.SNPProofs Proofs.Glue Proofs.OracleSpec Proofs.Findings.
+From Prtpy Require Import Base.Prelude Model.Binner Model.Objectives Model.KK Model.CG Model.DP Model.SNP Spec.Partition Oracle.Reach Proofs.DPProofs Proofs.KKProofs Proofs.CKKOptimal Proofs.CGOptimal Proofs.SNPProofs Proofs.Glue Proofs.OracleSpec Proofs.Findings Model.SNPTrace Proofs.SNPTraceProofs.
 
 (** dynamic programming is optimal for every objective *)
 Theorem C02_dp_optimal :
@@ -122,4 +122,17 @@ Theorem C02_opt_value_oracle :
   (1 <= k)%nat -> exists v : Z, opt_value o k vs = Some v /\ Opt o k vs v.
 Proof. exact @opt_value_spec. Qed.
 Print Assumptions C02_opt_value_oracle.
+
+(** the traced SNP search (whose trace is compared with the implementation's) returns exactly snp's result *)
+Theorem C02_snp_trace_result :
+  forall (A : Type) (valueof nameof : A -> Z) (keep : bool) (k : nat) (items : list A),
+  fst (snp_tr valueof nameof keep k items) = snp valueof nameof keep k items.
+Proof. exact @snp_tr_result. Qed.
+Print Assumptions C02_snp_trace_result.
+
+Theorem C02_rnp_trace_result :
+  forall (A : Type) (valueof nameof : A -> Z) (keep : bool) (k : nat) (items : list A),
+  fst (rnp_tr valueof nameof keep k items) = rnp valueof nameof keep k items.
+Proof. exact @rnp_tr_result. Qed.
+Print Assumptions C02_rnp_trace_result.
 
